@@ -59,7 +59,11 @@ def okExpr : Expr → Bool
   | .index _ _ => false
   | .pload e => okExpr e
   | .un _ e => okExpr e
-  | .bin _ a b => okExpr a && okExpr b
+  | .bin op a b =>
+    okExpr a && okExpr b &&
+      (match op with
+       | .tagand | .tagor => false          -- pointer tag bits (rculfhash only): may yield a pointer
+       | _ => true)
 
 def okPrim : Prim → Bool
   | .ext name => !(interpExt.contains name)
@@ -83,9 +87,10 @@ structure SafeEnv (env : Env) : Prop where
 theorem evalUn_safe (op v r) (h : evalUn op v = .ok r) : SafeVal r = true := by
   cases op <;> cases v <;> simp [evalUn] at h <;> subst h <;> rfl
 
-theorem evalBin_safe (op a b r) (h : evalBin op a b = .ok r) : SafeVal r = true := by
-  cases op <;> cases a <;> cases b <;> simp only [evalBin] at h <;> (try split at h) <;> simp [boolV] at h <;>
-    (try (subst h; rfl))
+theorem evalBin_safe (op a b r) (hb : op ≠ .tagand ∧ op ≠ .tagor) (h : evalBin op a b = .ok r) : SafeVal r = true := by
+  cases op <;> (try (exact absurd rfl hb.1)) <;> (try (exact absurd rfl hb.2)) <;>
+    cases a <;> cases b <;> simp only [evalBin] at h <;>
+    (try split at h) <;> simp [boolV] at h <;> (try (subst h; rfl))
 
 theorem asLoc_safe (v l) (hv : SafeVal v = true) (h : asLoc v = .ok l) : SafeLoc l = true := by
   cases v <;> simp [asLoc] at h
@@ -171,7 +176,11 @@ theorem eval_safe (env : Env) (hs : SafeEnv env) : ∀ (e : Expr) (v : Val), okE
       simp only [h1] at h
       cases h2 : eval env b with
       | error m => simp [h2] at h
-      | ok v2 => simp only [h2] at h; exact evalBin_safe _ _ _ _ h
+      | ok v2 =>
+        simp only [h2] at h
+        simp only [okExpr, Bool.and_eq_true] at ho
+        refine evalBin_safe _ _ _ _ ?_ h
+        constructor <;> (intro hop; subst hop; simp at ho)
 
 theorem evalArgs_safe (env : Env) (hs : SafeEnv env) : ∀ (args : List Expr) (vs : List Val),
     args.all okExpr = true → evalArgs env args = .ok vs → ∀ v ∈ vs, SafeVal v = true := by
